@@ -15,9 +15,13 @@ EXTENDS PairGraph, TLC
 NAt(g)        == Len(g.atoms)
 Backbone(g)   == {i \in 1..NAt(g) : g.atoms[i].name = g.bb}
 \* context computed once per input: residue representative per particle, residue graph, backbone particle per residue
+\* bbof[r] = 0 for a residue without backbone particle (only met with -go-backbone naming a side-chain bead; such a residue
+\* has no site and cannot take part in a pair potential; contact entries never name one)
 Ctx(g) == LET rep == RepTable(g.atoms)
+              BB  == Backbone(g)
           IN [rep |-> rep, E |-> ResEdgesOf(rep, g.edges), R |-> Range(rep),
-              bbof |-> [r \in Range(rep) |-> CHOOSE i \in Backbone(g) : rep[i] = r /\ \A j \in Backbone(g) : rep[j] = r => i <= j]]
+              bbof |-> [r \in Range(rep) |-> LET S == {i \in BB : rep[i] = r}
+                                             IN IF S = {} THEN 0 ELSE CHOOSE i \in S : \A j \in S : i <= j]]
 
 (* ------------------------------------ sites ------------------------------------ *)
 SiteType(g, i) == g.name \o "_" \o ToString(g.atoms[i].resid)       \* type of the site of backbone particle i
@@ -58,6 +62,15 @@ Scan(g, cx, k, seen, sym) ==
           ELSE Scan(g, cx, k + 1, seen \cup {<<A, B>>}, sym)
 ExpectedOp(g) == Scan(g, Ctx(g), 1, {}, {})
 
+(* the same selection organised for large inputs (real proteins, maps of several hundred entries): only residue pairs the
+   list names are looked at.  FastIsDecl (TAB model) checks it against the declarative form on every input of the model. *)
+DirPairs(g, cx) ==
+  {p \in {<<Lookup(g, cx, g.cmap[k].ca, g.cmap[k].ra), Lookup(g, cx, g.cmap[k].cb, g.cmap[k].rb)>> : k \in DOMAIN g.cmap}
+     : p[1] # 0 /\ p[2] # 0}
+SymOf(D) == {p \in D : p[1] < p[2] /\ <<p[2], p[1]>> \in D}
+SymListed(g, cx) == SymOf(DirPairs(g, cx))
+ExpectedFast(g) == LET cx == Ctx(g) IN {p \in SymListed(g, cx) : \A c \in 2..4 : Holds(g, cx, c, p[1], p[2])}
+
 \* classification for the vacuity report, over residue pairs listed in at least one direction
 Mentioned(g, cx) == {p \in ResPairs(cx) : Listed(g, p[1], p[2]) \/ Listed(g, p[2], p[1])}
 ClassOf(g, cx, x, y) ==
@@ -96,6 +109,7 @@ Spec == Init /\ [][Eval]_vars
 Done == out # NotYet
 Reverse(s) == [i \in DOMAIN s |-> s[Len(s) + 1 - i]]
 OpIsDecl      == Done => ExpectedOp(inp) = out
+FastIsDecl    == Done => ExpectedFast(inp) = out
 OrderFree     == Done => ExpectedOp([inp EXCEPT !.cmap = Reverse(@)]) = out             \* any order of the list
 BallIsWalk    == LET cx == Ctx(inp) IN
                  \A a \in cx.R, b \in cx.R : (b \in Ball(cx.E, a, inp.sep)) = WalkWithin(cx.R, cx.E, a, b, inp.sep)
